@@ -11,7 +11,10 @@ regime: `osu_to_sm_objects_partial`; every source into osu / Quaver from the rea
 parsed header values: `sm_to_osu_end_to_end_partial`, `sm_to_qua_end_to_end_partial`; BMS → osu / Quaver, objects, from the
 file's lines: `bms_to_osu_objects_partial`, `bms_to_qua_objects_partial`; what each `_partial` lacks is spelled out at the
 theorem; osu / Quaver / any source → BMS, objects in the exact regime, shift parameter included:
-`osu_to_bms_objects_partial`, `qua_to_bms_objects_partial`, `convert_write_bms_objects_partial`; the off-grid regime into
+`osu_to_bms_objects_partial`, `qua_to_bms_objects_partial`, `convert_write_bms_objects_partial`; O2Jam → StepMania / BMS:
+`o2j_to_sm_end_to_end_partial`, `o2j_to_bms_objects_partial`; StepMania → BMS, BMS → StepMania: `sm_to_bms_objects_partial`,
+`bms_to_sm_objects_partial` — every one of the 16 pairs now has a theorem from the source (file / `#NOTES` value) to the
+written file; the off-grid regime into
 StepMania / BMS and the tempo timeline into BMS are NOT proved as one theorem):  for every source file `t` of format A inside the domain of A's reader property, every legal
 target B and key count B supports,
     `CloseTo eps (res B) (gridExact a) shift a (abs_B (denote_B (write_B (convert_AB (read_A t)))))`   with `a = abs_A (denote_A t)`,
@@ -1870,6 +1873,191 @@ example :
     let c : Osu.Chart := { hits := [{ offset := 0, column := 0 }], bpms := [⟨0, 120, 4, 0, 0, 0, false⟩] }
     (match Convert.convert Convert.tables osuToBMS ⟨[], [embOsu c]⟩ 1 with
      | .ok out => out.charts.map (fun t => (ofTChart t).hits) == [[(0, 1)]]
+     | .error _ => false) = true := by decide +kernel
+
+/-! ## O2Jam → StepMania / BMS, bytes to written file -/
+
+def o2jToSM : Convert.Conv := Convert.conv! "O2JToSM.convert"
+def o2jToBMS : Convert.Conv := Convert.conv! "O2JToBMS.convert"
+
+theorem o2j_entries2 : o2jToSM ∈ Generated.converters ∧ o2jToSM.name = "O2JToSM.convert" ∧ o2jToSM.shiftParam = none ∧
+    o2jToBMS ∈ Generated.converters ∧ o2jToBMS.name = "O2JToBMS.convert" := by
+  decide +kernel
+
+/-- **O2Jam → StepMania, end to end, exact regime** (`_partial` as `osu_to_sm_end_to_end_partial`; bytes of the .ojn to the
+text `SMMapSet.write` returns for each level; reader C07 `read_spec`): one converted chart per level, and for every level
+`l` (columns not negative) with its converted chart `t` and every `SMWritable` header / renderer / written structure, the
+written text's denotation has `#OFFSET` = −`h.offset`/1000 and exactly `l`'s hits, holds and tempo points.  The rule of
+`O2JToSM` is offset `0.0` (`sm_offset_rules`), and an O2Jam level's first tempo point is at 0 ms
+(`o2j_first_tempo_at_zero`), so `SMWritable`'s `h.offset = t0` is met with `t0 = 0`. -/
+theorem o2j_to_sm_end_to_end_partial (bs : List Nat) (hwf : O2J.Spec.wellFormed bs = true) (f : O2J.FileOut)
+    (hspec : O2J.Spec.specSet bs = .ok f) (k : Int) (out : Convert.Out)
+    (hconv : Convert.convert Convert.tables o2jToSM (o2jSrc f) k = .ok out) :
+    O2J.readFile bs = .ok f ∧ out.charts.length = f.levels.length ∧
+    ∀ p ∈ f.levels.zip out.pairs, ColsNonneg (ofO2J p.1) →
+      ∀ (sh : SM.Shows) (t0 : Rat) (cs : List BcSnap) (h : SM.WHeader) (ty desc diff : SM.Str) (dv : Int)
+        (groove : List Rat) (w : SM.Written), SMWritable sh t0 cs h (smOfT p.2.2 ty desc diff dv groove) w →
+        ∃ d, SM.denote (SM.renderWritten sh w) = some d ∧ d.offsetSec = some w.offsetSec ∧ d.bpms = some w.bpms ∧
+          -(1000 * w.offsetSec) = h.offset ∧ d.chartsWellFormed = true ∧ d.charts.length = 1 ∧
+          ∀ (hd : 0 < d.charts.length),
+            CloseTo 0 (.beat (1 / 96) (1 / 192)) true 0 (ofO2J p.1) (ofSMChart w.offsetSec w.bpms d.charts[0]) := by
+  obtain ⟨hc, _, hns, _, _⟩ := o2j_entries2
+  refine ⟨by rw [O2J.read_spec bs hwf]; exact hspec, ?_, ?_⟩
+  · have := Convert.one_per_source _ _ _ _ _ (Convert.table_shapes _ hc) hconv
+    simpa [Convert.onePerSource, o2jSrc] using this
+  · intro p hp hcols sh t0 cs h ty desc diff dv groove w H
+    have := convert_write_sm_partial _ hc hns _ k out (o2jSrc_ok f) hconv _ (o2jSrc_zip f _ p hp)
+      (by simpa [ofSrcMap_embA] using hcols) sh t0 cs h ty desc diff dv groove w H
+    simpa [ofSrcMap_embA] using this
+
+open Reamber.BMS Reamber.PermInv in
+/-- **O2Jam → BMS, end to end, objects, exact regime** (`_partial` as `osu_to_bms_objects_partial`; reader C07) -/
+theorem o2j_to_bms_objects_partial (bs : List Nat) (hwf : O2J.Spec.wellFormed bs = true) (f : O2J.FileOut)
+    (hspec : O2J.Spec.specSet bs = .ok f) (k : Int) (out : Convert.Out)
+    (hconv : Convert.convert Convert.tables o2jToBMS (o2jSrc f) k = .ok out) :
+    O2J.readFile bs = .ok f ∧ out.charts.length = f.levels.length ∧
+    ∀ p ∈ f.levels.zip out.pairs, ∀ (cs : List BcSnap) (lay : BMS.Layout) (dflt : BMS.Bytes) (wc : BMS.WChart)
+      (items : BMS.Bytes × Nat → List TAtom), RepresentsBMS wc p.2.2 → BMSWritable cs lay dflt wc items →
+      ∃ blines d, BMS.write defaultGrid lay dflt wc = .ok blines ∧ BMS.denote lay blines = some d ∧
+        ObjectsClose 0 (.beat (1 / 192) (1 / 192)) true 0 (shiftCols (Convert.effShift o2jToBMS k) (ofO2J p.1)) (ofBMS d) := by
+  obtain ⟨_, _, _, hc, _⟩ := o2j_entries2
+  refine ⟨by rw [O2J.read_spec bs hwf]; exact hspec, ?_, ?_⟩
+  · have := Convert.one_per_source _ _ _ _ _ (Convert.table_shapes _ hc) hconv
+    simpa [Convert.onePerSource, o2jSrc] using this
+  · intro p hp cs lay dflt wc items hrep H
+    have := convert_write_bms_objects_partial _ hc _ k out (o2jSrc_ok f) hconv _ (o2jSrc_zip f _ p hp) cs lay dflt wc items
+      hrep H
+    simpa [ofSrcMap_embA] using this
+
+/-- non-vacuity of the converter hypotheses: on the frames of a one-level set both converter models succeed -/
+example :
+    let lv : O2J.LevelOut := ⟨[], [⟨0, 120, 0⟩, ⟨1, 150, 2000⟩]⟩
+    let f : O2J.FileOut := ⟨[], [lv]⟩
+    (match Convert.convert Convert.tables o2jToSM (o2jSrc f) 0 with
+     | .ok out => out.charts.map (fun t => (ofTChart t).bpms) == [[(0, 120), (2000, 150)]]
+     | .error _ => false) = true ∧
+    (match Convert.convert Convert.tables o2jToBMS (o2jSrc f) 0 with
+     | .ok out => out.charts.map (fun t => (ofTChart t).bpms) == [[(0, 120), (2000, 150)]]
+     | .error _ => false) = true := by decide +kernel
+
+/-! ## the two remaining pairs: StepMania → BMS and BMS → StepMania (objects, exact regime) -/
+
+def smToBMS : Convert.Conv := Convert.conv! "SMToBMS.convert"
+def bmsToSM : Convert.Conv := Convert.conv! "BMSToSM.convert"
+
+theorem sm_bms_entries : smToBMS ∈ Generated.converters ∧ smToBMS.name = "SMToBMS.convert" ∧
+    bmsToSM ∈ Generated.converters ∧ bmsToSM.name = "BMSToSM.convert" ∧ bmsToSM.shiftParam = none := by
+  decide +kernel
+
+/-- in the exact regime the object part of the statement depends on the source only through its rows -/
+theorem objectsClose_exact_of_perm (f g : Rat) (a a' tgt : AChart) (hh : a.hits.Perm a'.hits) (hl : a.holds.Perm a'.holds)
+    (h : ObjectsClose 0 (.beat f g) true 0 a tgt) : ObjectsClose 0 (.beat f g) true 0 a' tgt :=
+  ⟨paired_of_perm_left _ _ _ _ hh h.1, paired_of_perm_left _ _ _ _ hl h.2⟩
+
+theorem objectsClose_exact_shift_of_perm (f g : Rat) (k : Int) (a a' tgt : AChart) (hh : a.hits.Perm a'.hits)
+    (hl : a.holds.Perm a'.holds) (h : ObjectsClose 0 (.beat f g) true 0 (shiftCols k a) tgt) :
+    ObjectsClose 0 (.beat f g) true 0 (shiftCols k a') tgt :=
+  objectsClose_exact_of_perm f g _ _ _ (hh.map _) (hl.map _) h
+
+open Reamber.BMS Reamber.PermInv in
+/-- **StepMania → BMS, end to end, objects, exact regime** (`_partial`: as `sm_to_osu_end_to_end_partial` on the reader
+side — one `#NOTES` value, measure-line tempo changes — and as `convert_write_bms_objects_partial` on the writer side) -/
+theorem sm_to_bms_objects_partial (σf : List Snap → List Nat) (hσ : ∀ qs, SortsAsc (σf qs) qs)
+    (data : SM.Str) (t0 : Rat) (cs0 : List BcSnap) (offsetSec : Rat) (b : List (Rat × Rat)) (ms : List (List SM.Str))
+    (D : SMChartDom data t0 cs0 offsetSec b ms) (ss : Bool) (rb : List (Rat × Rat)) (notes : List SM.Note)
+    (h : SM.readNotesWith σf data (some t0) (some cs0) ss = .ok (rb, notes))
+    (ps : List SM.Str) (hps : ps.getD 5 [] = data)
+    (svs : Option (List (Rat × Rat))) (setAttrs mapAttrs : List (String × String)) (lv : String) (k : Int)
+    (out : Convert.Out)
+    (hconv : Convert.convert Convert.tables smToBMS (srcOfAbstract [ofSMRead rb notes] svs setAttrs mapAttrs lv) k = .ok out) :
+    ∀ p ∈ [ofSMRead rb notes].zip out.pairs, ∀ (cs : List BcSnap) (lay : BMS.Layout) (dflt : BMS.Bytes) (wc : BMS.WChart)
+      (items : BMS.Bytes × Nat → List TAtom), RepresentsBMS wc p.2.2 → BMSWritable cs lay dflt wc items →
+      ∃ blines d, BMS.write defaultGrid lay dflt wc = .ok blines ∧ BMS.denote lay blines = some d ∧
+        ObjectsClose 0 (.beat (1 / 192) (1 / 192)) true 0
+          (shiftCols (Convert.effShift smToBMS k) (ofSMChart offsetSec b (SM.denoteChart ps))) (ofBMS d) := by
+  have hr := sm_read_abstract σf hσ data t0 cs0 ss D.hwf D.hs D.h0 D.hgc D.hm D.hline offsetSec b D.ho D.hb D.hsorted ms
+    D.hms D.hsc D.h4 D.hcol D.hok D.hclosed rb notes h ps hps
+  obtain ⟨hc, _, _, _, _⟩ := sm_bms_entries
+  intro p hp cs lay dflt wc items hrep H
+  have hsrc : ∀ m ∈ (srcOfAbstract [ofSMRead rb notes] svs setAttrs mapAttrs lv).maps, Convert.srcMapOk m = true := by
+    intro m hm
+    simp only [srcOfAbstract, List.mem_map] at hm
+    obtain ⟨a, _, rfl⟩ := hm
+    exact srcMapOk_embA _ _ _ _
+  have hmem : (embA p.1 svs mapAttrs lv, p.2) ∈ (srcOfAbstract [ofSMRead rb notes] svs setAttrs mapAttrs lv).maps.zip out.pairs := by
+    simp only [srcOfAbstract, List.zip_map_left]
+    exact List.mem_map.mpr ⟨p, hp, rfl⟩
+  obtain ⟨blines, d, hw, hd, hobj⟩ := convert_write_bms_objects_partial _ hc _ k out hsrc hconv _ hmem cs lay dflt wc items
+    hrep H
+  have hp1 : p.1 = ofSMRead rb notes := by
+    have := (List.of_mem_zip hp).1
+    simpa using this
+  rw [ofSrcMap_embA, hp1] at hobj
+  exact ⟨blines, d, hw, hd, objectsClose_exact_shift_of_perm _ _ _ _ _ _ hr.1 hr.2.1 hobj⟩
+
+/-- **BMS → StepMania, end to end, objects, exact regime** (`_partial`: reader side as `bms_to_osu_objects_partial` — the
+tempo timeline is that of the reader's stored list —, writer side as `osu_to_sm_end_to_end_partial`): the written .sm
+text's denotation holds exactly the hits and holds of the SOURCE's denotation `d`, and exactly the in-memory chart incl.
+its stored tempo list. -/
+theorem bms_to_sm_objects_partial (lay : BMS.Layout) (hlay : BMS.LayoutOK lay) (lines : List BMS.Bytes)
+    (d : BMS.Denotation) (hden : BMS.denote lay lines = some d)
+    (hord : ∀ doc, BMS.parseDoc lines = .ok doc → BMS.LanesInOrder lay doc.notes)
+    (hgc : gridCompatible (grid defaultMaxDiv) d.tempo = true) (c : BMS.Chart)
+    (hr : BMS.read defaultGrid lay lines = .ok c)
+    (dec : BMS.Bytes → String) (setAttrs mapAttrs : List (String × String)) (lv : String) (k : Int)
+    (out : Convert.Out)
+    (hconv : Convert.convert Convert.tables bmsToSM ⟨setAttrs, [embBMS dec c mapAttrs lv]⟩ k = .ok out) :
+    ∀ p ∈ [embBMS dec c mapAttrs lv].zip out.pairs,
+      ∀ (sh : SM.Shows) (t0 : Rat) (cs : List BcSnap) (h : SM.WHeader) (ty desc diff : SM.Str) (dv : Int)
+        (groove : List Rat) (w : SM.Written), SMWritable sh t0 cs h (smOfT p.2.2 ty desc diff dv groove) w →
+        ∃ ds, SM.denote (SM.renderWritten sh w) = some ds ∧ ds.offsetSec = some w.offsetSec ∧ ds.bpms = some w.bpms ∧
+          -(1000 * w.offsetSec) = h.offset ∧ ds.chartsWellFormed = true ∧ ds.charts.length = 1 ∧
+          ∀ (hd : 0 < ds.charts.length),
+            ObjectsClose 0 (.beat (1 / 96) (1 / 192)) true 0 (ofBMS d) (ofSMChart w.offsetSec w.bpms ds.charts[0]) ∧
+            CloseTo 0 (.beat (1 / 96) (1 / 192)) true 0 (ofBMSRead c) (ofSMChart w.offsetSec w.bpms ds.charts[0]) := by
+  have hra := bms_read_abstract lay hlay lines d hden hord hgc c hr
+  obtain ⟨_, _, hc, _, hns⟩ := sm_bms_entries
+  intro p hp sh t0 cs h ty desc diff dv groove w H
+  have hsrc : ∀ m ∈ (⟨setAttrs, [embBMS dec c mapAttrs lv]⟩ : Convert.Src).maps, Convert.srcMapOk m = true := by
+    intro m hm
+    simp only [List.mem_singleton] at hm
+    subst hm
+    exact srcMapOk_embBMS dec c mapAttrs lv
+  have hp1 : p.1 = embBMS dec c mapAttrs lv := by
+    have := (List.of_mem_zip hp).1
+    simpa using this
+  have hcols : ColsNonneg (ofSrcMap p.1) := by
+    rw [hp1, ofSrcMap_embBMS]
+    constructor
+    · intro x hx
+      simp only [ofBMSRead, List.mem_map] at hx
+      obtain ⟨y, _, rfl⟩ := hx
+      exact Int.natCast_nonneg _
+    · intro x hx
+      simp only [ofBMSRead, List.mem_map] at hx
+      obtain ⟨y, _, rfl⟩ := hx
+      exact Int.natCast_nonneg _
+  obtain ⟨ds, h1, h2, h3, h4, h5, h6, h7⟩ := convert_write_sm_partial _ hc hns _ k out hsrc hconv p hp hcols
+    sh t0 cs h ty desc diff dv groove w H
+  refine ⟨ds, h1, h2, h3, h4, h5, h6, ?_⟩
+  intro hd
+  have hcl := h7 hd
+  rw [hp1, ofSrcMap_embBMS] at hcl
+  exact ⟨objectsClose_exact_of_perm _ _ _ _ _ hra.1 hra.2 ⟨hcl.1, hcl.2.1⟩, hcl⟩
+
+/-- non-vacuity of the converter hypotheses of the two theorems above -/
+example :
+    let a : AChart := ⟨[(500, 0), (1000, 1)], [(2500, 0, 1000)], [(500, 120)]⟩
+    let sa : List (String × String) := [("background", "b"), ("title", "t"), ("title_translit", "t"), ("artist", "a"),
+      ("artist_translit", "a"), ("music", "m"), ("credit", "c"), ("sample_start", "0")]
+    let ma : List (String × String) := [("difficulty", "Hard"), ("chart_type", "dance-single"), ("difficulty_val", "1")]
+    let c : BMS.Chart := ⟨⟨[], [], [], [], [], [], 120, []⟩, [⟨0, ['0', '1'], 0⟩, ⟨3, [], 500⟩], [⟨1, ['0', '2'], 1000, 500⟩],
+      [⟨120, 4, 0⟩, ⟨150, 4, 2000⟩], []⟩
+    (match Convert.convert Convert.tables smToBMS (srcOfAbstract [a] none sa ma "<d>") 0 with
+     | .ok out => out.charts.map (fun t => (ofTChart t).hits) == [[(500, 0), (1000, 1)]]
+     | .error _ => false) = true ∧
+    (match Convert.convert Convert.tables bmsToSM ⟨[], [embBMS (fun _ => "s.wav") c [("title", "t"), ("artist", "a"), ("version", "v")] "<d>"]⟩ 0 with
+     | .ok out => out.charts.map ofTChart == [ofBMSRead c]
      | .error _ => false) = true := by decide +kernel
 
 end Reamber.Pipeline
